@@ -142,7 +142,7 @@ fn gen(t: &mut Tape, _tier: Tier) -> Scenario {
     let rk = [RK_SIM, RK_BUFREADER, RK_SIM, RK_CHAIN][t.below(4) as usize];
     sc.set_i("rk", rk);
     let n = sc.b("input").len() as u64;
-    sc.set_i("bufcap", if rk == RK_CHAIN { t.below(n + 1) } else { t.range(1, 64) });
+    sc.set_i("bufcap", if rk == RK_CHAIN { t.below(n + 1) } else { crate::gen::draw_bufcap(t, 64) });
     let mut script = gen::draw_script(t);
     if script.is_empty() {
         script = vec![1];
